@@ -17,6 +17,7 @@ RULE = ("explicit-state BFS over DyadCarrier operation sequences: initial states
         "kind, diagonals, element/row/column/fancy access, contract in 8 forms, contract_multi, dot/@ from both sides "
         "with real and complex vectors, dense +/-, iscomplex). Steps whose dense counterpart raises are inadmissible and "
         "not taken. Non-trivial = carrier holds >= 1 dyad; distinct by full byte content")
+RULE += " Extended in seeding rounds 6-7:  zero-length dimensions, empty sparse operands, boolean masks in contract, scalar + 2-D index element access."
 ASSUMPTIONS = ["an exactly-zero result may be real-typed even where numpy would return a complex zero (the carrier drops "
                "zero dyads by design)",
                "operand tables are fixed generic numbers (fractional parts of scaled square roots of primes)"]
